@@ -114,7 +114,7 @@ def check_call(contract, args, repo, ns=None):
   """run the real function on native `args` (dict param -> value) and evaluate the contract.
   returns Outcome(case, ok, failed=[...], result/exception)."""
   ns=dict(ns or macro_namespace())
-  fn=resolve(repo,contract.key)
+  fn=contract.native(repo) if getattr(contract,'native',None) else resolve(repo,contract.key)
   tags={p:native_label(v) for p,v in args.items()}
   env=dict(ns); env.update(args)
   case=None
